@@ -15,7 +15,7 @@
  "name": "crc16",
  "props": ["C14"],
  "level": "U",
- "tier": "wip",
+ "tier": "quick",
  "harness": "h_crc16",
  "enforce": ["ext2fs_crc16"],
  "loop_contracts": true,
